@@ -168,6 +168,44 @@ func ruleEnv(c *Ctx) {
 		c.R.Undecided("R-TABLE/env", f.Name, "exec.Cmd.Env", "field not resolved")
 		return
 	}
+	// who may write exec.Cmd.Env: Start assembles it (host environment first,
+	// the library's variables last, so that they win); nothing else in the module
+	// may assign or re-arrange it afterwards (a de-duplication that keeps the
+	// first occurrence hands the host's values to the plugin)
+	{
+		nOther := 0
+		for _, of := range p.Funcs {
+			root := of
+			for root.Parent != nil {
+				root = root.Parent
+			}
+			if root == f || strings.HasSuffix(p.Fset.Position(of.Body.Pos()).Filename, "testing.go") {
+				continue
+			}
+			oinfo := of.Pkg.TypesInfo
+			walkNoLit(of.Body, func(x ast.Node) bool {
+				as, ok := x.(*ast.AssignStmt)
+				if !ok {
+					return true
+				}
+				for _, l := range as.Lhs {
+					target := ast.Unparen(l)
+					if ix, isIx := target.(*ast.IndexExpr); isIx {
+						target = ast.Unparen(ix.X)
+					}
+					if SelField(oinfo, target) == envF {
+						nOther++
+						c.R.Violate("R-ORDER/O5", p.Pos(as), of.Name, "the command's environment is written only by Start",
+							"exec.Cmd.Env is assigned outside Client.Start: whatever order Start established (the library's variables after the inherited ones, so that they win) can be undone here, and the plugin then acts on the host's values of the control variables", nil)
+					}
+				}
+				return true
+			})
+		}
+		if nOther == 0 {
+			c.R.Hold("R-ORDER/O5", p.Pos(f.Node()), f.Name, "the command's environment is written only by Start", "no assignment to exec.Cmd.Env elsewhere in the module", true)
+		}
+	}
 	var entries []envEntry
 	var envSlice *types.Var // the intermediate slice variable
 	var hostNode *Node
